@@ -505,6 +505,7 @@ def run(chk, replay=None):
     chk.set("seconds_tlc", round(time.time() - t0, 1))
     env = lib.clean_env()
     jobs = []
+    t0 = time.time()
     for fam in families:
         for ci, case in enumerate(cases[fam]):
             for game, stride in GAMES[fam][tier]:
@@ -516,14 +517,17 @@ def run(chk, replay=None):
                 jobs.append(dict(idx=len(jobs), cmd=CMD[fam], game=game, src=src, case=case, aux=aux, fam=fam))
     if replay and not jobs:
         raise lib.ToolError("the replayed layout is not generated any more")
+    chk.set("seconds_render", round(time.time() - t0, 1))
     t0 = time.time()
     results = batch_compile(jobs, wd)
     chk.set("seconds_compile", round(time.time() - t0, 1))
     # the in-process driver must be indistinguishable from the real CLI binary: re-run a stride through the CLI
     stride = 1 if replay else max(1, len(jobs) // CLI_CROSSCHECKS[tier])
     picked = jobs[::stride]
+    t0 = time.time()
     with ThreadPoolExecutor(max_workers=8) as ex:
         cli = list(ex.map(lambda j: cli_compile(j, env), picked))
+    chk.set("seconds_cli_crosscheck", round(time.time() - t0, 1))
     for j, (rc, stderr, data) in zip(picked, cli):
         brc, bstderr, bdata = results[j["idx"]]
         chk.add("cli_crosschecked")
